@@ -429,9 +429,9 @@ MALFORMED_CLEAN = ["nosuchopcode a 1", "always", "always ab", "always ab 19z", "
                    "multind 1 nosuch", "noback nofor always ab 1", "numericmodechars \\x0f00",
                    "capsmodechars \\x0f01", "display ab 1", "display a 1-2", "math \\x0f02", "always \\x0f03 =", "letter \\x0f04",
                    "letter \\x0f05 1z", "undefined", "numsign 1z", "lencapsphrase 0", "swapcc s2 ab", "comp6 ab 1", "hyphen ab 1",
-                   "exactdots ab", "locale", "uplow Aa 1", "noback pass2", "correct \"a\" \"b\"", "before"]
+                   "exactdots ab", "locale", "uplow Aa 1", "before"]
 # rejected only after a partial effect, or accepted although an error is logged (findings of C15; each is tried in isolation)
-MALFORMED_DIRTY = [("noback pass2 @1", "pass"), ("noback pass3 [@1 @2", "pass"), ("noback pass4 @1 @2z", "pass"),
+MALFORMED_DIRTY = [("noback pass2", "pass"), ("correct \"a\" \"b\"", "pass"), ("noback pass2 @1", "pass"), ("noback pass3 [@1 @2", "pass"), ("noback pass4 @1 @2z", "pass"),
                    ("noback correct @1 \"a\"", "pass"), ("noback pass2 {nosuchgroup @1", "pass"), ("noback pass2 %nosuchswap @1", "pass"),
                    ("noback match %[ ab - 12", "match"), ("noback match - ab ( 12", "match"), ("nofor match - ab ( 12", "match"),
                    ("base uppercase \\x0994", "base"), ("base uppercase \\x0994 ab", "base"), ("base nosuchattr", "base"),
